@@ -92,6 +92,11 @@ func (s *Server) manifestDelete(repoStr, arg string) http.HandlerFunc {
 			}()
 			if err != nil {
 				s.log.Info("failed to delete entry from referrers response", "repo", repoStr, "arg", arg, "err", err)
+				if storageReadFailed(err) {
+					// the manifest would be gone and still be listed as a referrer, the client can retry
+					w.WriteHeader(http.StatusInternalServerError)
+					return
+				}
 			}
 		}
 		// delete the digest or tag
